@@ -149,7 +149,7 @@ func runC20(seed uint64, n int, tier string) {
 }
 
 func runC20Case(id string, c *c20Case) {
-	defer recoverCase(id, c)
+	defer watchCase(id, c)()
 	cs := &Case{ID: id, Kind: c.Kind, HypOK: true, Replay: c}
 	if c.Kind == "sequential" {
 		q := util.NewQueue()
